@@ -51,6 +51,7 @@ VARIABLES
   wif,                                        \* stdin write in flight: None or [s, n, ph]
   stdinR,                                     \* client's read end of stdin open
   wof, rpartial, outClosed,                   \* stdout: copier write in flight, reader holds partial msg, writer end closed
+  gone,                                       \* the child process has really ended (its pipe ends are closed)
   copier, inbuf, outbuf, outEOF,              \* exec layer: stdin copier state, OS pipe contents (stdin / stdout), stdout copier done
   rpc, rmsg, rerr, seen,                      \* reader
   cpc, cop, cret, cops, inbox, aborted, exitFail, readPh,    \* client
@@ -60,9 +61,9 @@ VARIABLES
   hist
 
 rvars == <<lock, pending, closedSend, err, terminated, done>>
-osv == <<copier, inbuf, outbuf, outEOF>>
+osv == <<copier, inbuf, outbuf, outEOF, gone>>
 vars == <<pc, idx, res, lock, pending, closedSend, err, terminated, done, wif, stdinR, wof, rpartial, outClosed,
-          copier, inbuf, outbuf, outEOF,
+          copier, inbuf, outbuf, outEOF, gone,
           rpc, rmsg, rerr, seen, cpc, cop, cret, cops, inbox, aborted, exitFail, readPh, pipesClosed, pdone,
           kpc, wpc, wres, regs, cbs, cblog, hist>>
 
@@ -74,7 +75,7 @@ Init ==
   /\ lock = None /\ pending = {} /\ closedSend = FALSE /\ err = FALSE /\ terminated = FALSE /\ done = FALSE
   /\ wif = NoW /\ stdinR = TRUE
   /\ wof = NoO /\ rpartial = FALSE /\ outClosed = FALSE
-  /\ copier = "run" /\ inbuf = <<>> /\ outbuf = <<>> /\ outEOF = FALSE
+  /\ copier = "run" /\ inbuf = <<>> /\ outbuf = <<>> /\ outEOF = FALSE /\ gone = FALSE
   /\ rpc = "reading" /\ rmsg = None /\ rerr = None /\ seen = {}
   /\ cpc = "idle" /\ cop = None /\ cret = None /\ cops = 0 /\ inbox = {} /\ aborted = FALSE /\ exitFail = FALSE /\ readPh = 1
   /\ pipesClosed = FALSE /\ pdone = FALSE
@@ -168,12 +169,12 @@ ReadCall ==                         \* OBSERVABLE: the client starts reading the
 \* (the chunk is lost, though the sender's write of it has succeeded).
 CopierTakes ==
   /\ copier = "run" /\ wif # NoW
-  /\ IF cpc = "exited"
+  /\ IF gone
        THEN copier' = "dead" /\ UNCHANGED inbuf
        ELSE inbuf' = Append(inbuf, [n |-> wif.n, ph |-> wif.ph]) /\ UNCHANGED copier
   /\ wif' = IF wif.ph = 1 THEN [wif EXCEPT !.ph = 2] ELSE NoW
   /\ UNCHANGED <<pc, idx, res, lock, pending, closedSend, err, terminated, done, stdinR, wof, rpartial, outClosed,
-                 outbuf, outEOF, rpc, rmsg, rerr, seen, cpc, cop, cret, cops, inbox, aborted, exitFail, readPh, pipesClosed, pdone,
+                 gone, outbuf, outEOF, rpc, rmsg, rerr, seen, cpc, cop, cret, cops, inbox, aborted, exitFail, readPh, pipesClosed, pdone,
                  kpc, wpc, wres, regs, cbs, cblog, hist>>
 
 \* the runner closed its end of stdin (closeSend): the copier forwards the end of input and ends
@@ -181,7 +182,7 @@ CopierSeesEOF ==
   /\ copier = "run" /\ wif = NoW /\ closedSend
   /\ copier' = "eof"
   /\ UNCHANGED <<pc, idx, res, lock, pending, closedSend, err, terminated, done, wif, stdinR, wof, rpartial, outClosed,
-                 inbuf, outbuf, outEOF, rpc, rmsg, rerr, seen, cpc, cop, cret, cops, inbox, aborted, exitFail, readPh, pipesClosed, pdone,
+                 gone, inbuf, outbuf, outEOF, rpc, rmsg, rerr, seen, cpc, cop, cret, cops, inbox, aborted, exitFail, readPh, pipesClosed, pdone,
                  kpc, wpc, wres, regs, cbs, cblog, hist>>
 
 \* the child reads the next chunk (prefix, body) from its stdin
@@ -192,7 +193,7 @@ ClientTakes ==
                             ELSE readPh' = 1 /\ inbox' = inbox \cup {Head(inbuf).n}
   /\ cpc' = "readdone" /\ cret' = "ok"
   /\ UNCHANGED <<pc, idx, res, lock, pending, closedSend, err, terminated, done, wif, stdinR, wof, rpartial, outClosed,
-                 copier, outbuf, outEOF, rpc, rmsg, rerr, seen, cop, cops, aborted, exitFail, pipesClosed, pdone,
+                 gone, copier, outbuf, outEOF, rpc, rmsg, rerr, seen, cop, cops, aborted, exitFail, pipesClosed, pdone,
                  kpc, wpc, wres, regs, cbs, cblog, hist>>
 
 ClientSeesEOF ==
@@ -221,7 +222,7 @@ WriteCall(kind, n) ==               \* OBSERVABLE: the client starts writing to 
   /\ (kind # "resp") => n = "-"
   /\ cpc' = "writing" /\ cops' = cops + 1 /\ outbuf' = Append(outbuf, [kind |-> kind, n |-> n]) /\ cop' = kind
   /\ H(<<"W", kind, n>>)
-  /\ UNCHANGED <<copier, inbuf, outEOF, wof, pc, idx, res, lock, pending, closedSend, err, terminated, done, wif, stdinR, rpartial, outClosed,
+  /\ UNCHANGED <<gone, copier, inbuf, outEOF, wof, pc, idx, res, lock, pending, closedSend, err, terminated, done, wif, stdinR, rpartial, outClosed,
                  rpc, rmsg, rerr, seen, cret, inbox, aborted, exitFail, readPh, pipesClosed, pdone,
                  kpc, wpc, wres, regs, cbs, cblog>>
 
@@ -234,47 +235,55 @@ WriteRet ==                         \* OBSERVABLE: the write returned: taken by 
                  kpc, wpc, wres, regs, cbs, cblog, hist>>
 
 Exit(fail) ==                       \* OBSERVABLE: the client function is about to return
-  /\ cpc \in {"idle", "mustexit"}
+  /\ cpc # "exited"                     \* an OS process can be killed (SIGTERM from abort) in the middle of an operation
   /\ cpc' = "exited" /\ exitFail' = fail
   /\ H(<<"X", fail>>)
   /\ UNCHANGED <<osv, pc, idx, res, lock, pending, closedSend, err, terminated, done, wif, stdinR, wof, rpartial, outClosed,
                  rpc, rmsg, rerr, seen, cop, cret, cops, inbox, aborted, readPh, pipesClosed, pdone,
                  kpc, wpc, wres, regs, cbs, cblog>>
 
+\* the child, having announced its exit, really ends: the OS closes its ends of the pipes
+ChildGone ==
+  /\ cpc = "exited" /\ ~gone
+  /\ gone' = TRUE
+  /\ UNCHANGED <<copier, inbuf, outbuf, outEOF, pc, idx, res, lock, pending, closedSend, err, terminated, done, wif, stdinR, wof, rpartial, outClosed,
+                 rpc, rmsg, rerr, seen, cpc, cop, cret, cops, inbox, aborted, exitFail, readPh, pipesClosed, pdone,
+                 kpc, wpc, wres, regs, cbs, cblog, hist>>
+
 (* ------------------------------------------------------------ exec layer, stdout side *)
 StdoutCopierWrites ==
   /\ wof = NoO /\ outbuf # <<>> /\ ~outClosed
   /\ wof' = Head(outbuf) /\ outbuf' = Tail(outbuf)
-  /\ UNCHANGED <<copier, inbuf, outEOF, pc, idx, res, lock, pending, closedSend, err, terminated, done, wif, stdinR, rpartial, outClosed,
+  /\ UNCHANGED <<gone, copier, inbuf, outEOF, pc, idx, res, lock, pending, closedSend, err, terminated, done, wif, stdinR, rpartial, outClosed,
                  rpc, rmsg, rerr, seen, cpc, cop, cret, cops, inbox, aborted, exitFail, readPh, pipesClosed, pdone,
                  kpc, wpc, wres, regs, cbs, cblog, hist>>
 \* child gone and everything it wrote was handed to the reader: the stdout copier is finished
 StdoutCopierDone ==
-  /\ cpc = "exited" /\ outbuf = <<>> /\ wof = NoO /\ ~outEOF
+  /\ gone /\ outbuf = <<>> /\ wof = NoO /\ ~outEOF
   /\ outEOF' = TRUE
-  /\ UNCHANGED <<copier, inbuf, outbuf, pc, idx, res, lock, pending, closedSend, err, terminated, done, wif, stdinR, wof, rpartial, outClosed,
+  /\ UNCHANGED <<gone, copier, inbuf, outbuf, pc, idx, res, lock, pending, closedSend, err, terminated, done, wif, stdinR, wof, rpartial, outClosed,
                  rpc, rmsg, rerr, seen, cpc, cop, cret, cops, inbox, aborted, exitFail, readPh, pipesClosed, pdone,
                  kpc, wpc, wres, regs, cbs, cblog, hist>>
 \* the reader stopped reading for good (failure): the copier's pending write can only end when the
 \* pipes are torn down; the exec layer does that WaitDelay after the abort
 StdoutCopierGivesUp ==
-  /\ aborted /\ cpc = "exited" /\ ~outEOF /\ rpc \notin {"reading", "lookup", "dispatch"}
+  /\ aborted /\ gone /\ ~outEOF /\ rpc \notin {"reading", "lookup", "dispatch"}
   /\ outEOF' = TRUE /\ outbuf' = <<>> /\ wof' = NoO
-  /\ UNCHANGED <<copier, inbuf, pc, idx, res, lock, pending, closedSend, err, terminated, done, wif, stdinR, rpartial, outClosed,
+  /\ UNCHANGED <<gone, copier, inbuf, pc, idx, res, lock, pending, closedSend, err, terminated, done, wif, stdinR, rpartial, outClosed,
                  rpc, rmsg, rerr, seen, cpc, cop, cret, cops, inbox, aborted, exitFail, readPh, pipesClosed, pdone,
                  kpc, wpc, wres, regs, cbs, cblog, hist>>
 \* after an abort the exec layer stops waiting for a stdin copier that is still blocked
 StdinCopierGivesUp ==
-  /\ aborted /\ cpc = "exited" /\ copier = "run"
+  /\ aborted /\ gone /\ copier = "run"
   /\ copier' = "dead"
-  /\ UNCHANGED <<inbuf, outbuf, outEOF, pc, idx, res, lock, pending, closedSend, err, terminated, done, wif, stdinR, wof, rpartial, outClosed,
+  /\ UNCHANGED <<gone, inbuf, outbuf, outEOF, pc, idx, res, lock, pending, closedSend, err, terminated, done, wif, stdinR, wof, rpartial, outClosed,
                  rpc, rmsg, rerr, seen, cpc, cop, cret, cops, inbox, aborted, exitFail, readPh, pipesClosed, pdone,
                  kpc, wpc, wres, regs, cbs, cblog, hist>>
 
 (* ------------------------------------------------------------ process wrapper *)
 \* cmd.Wait has returned (child gone, both copiers finished); the runner's ends are closed
 ClosePipes ==
-  /\ cpc = "exited" /\ ~pipesClosed /\ outEOF /\ copier \in {"dead", "eof"}
+  /\ gone /\ ~pipesClosed /\ outEOF /\ copier \in {"dead", "eof"}
   /\ pipesClosed' = TRUE /\ stdinR' = FALSE /\ outClosed' = TRUE
   /\ UNCHANGED <<osv, pc, idx, res, lock, pending, closedSend, err, terminated, done, wif, wof, rpartial,
                  rpc, rmsg, rerr, seen, cpc, cop, cret, cops, inbox, aborted, exitFail, readPh, pdone,
@@ -395,7 +404,7 @@ WaitRet ==                          \* OBSERVABLE
 
 (* ------------------------------------------------------------------ system *)
 Internal == \/ \E s \in Senders : CheckErr(s) \/ Lock(s) \/ Register(s) \/ WriteDone(s) \/ WriteFail(s)
-            \/ CopierTakes \/ CopierSeesEOF \/ StdoutCopierWrites \/ StdoutCopierDone \/ StdoutCopierGivesUp \/ StdinCopierGivesUp
+            \/ ChildGone \/ CopierTakes \/ CopierSeesEOF \/ StdoutCopierWrites \/ StdoutCopierDone \/ StdoutCopierGivesUp \/ StdinCopierGivesUp
             \/ ClientTakes \/ ClientSeesEOF \/ ClosePipes \/ ProcDone
             \/ Read \/ Lookup \/ Fail \/ CloseSendByReader \/ ReaderDone \/ CloseDo \/ WaitDone
 
@@ -414,7 +423,7 @@ Next == Internal \/ Observable \/ Finished
 Fair == /\ \A s \in Senders : WF_vars(SendCall(s)) /\ WF_vars(CheckErr(s)) /\ WF_vars(Lock(s)) /\ WF_vars(Register(s))
                               /\ WF_vars(WriteDone(s)) /\ WF_vars(WriteFail(s)) /\ WF_vars(SendRet(s))
         /\ WF_vars(ClientTakes) /\ WF_vars(ClientSeesEOF) /\ WF_vars(ReadRet) /\ WF_vars(WriteRet)
-        /\ WF_vars(CopierTakes) /\ WF_vars(CopierSeesEOF) /\ WF_vars(StdoutCopierWrites) /\ WF_vars(StdoutCopierDone)
+        /\ WF_vars(ChildGone) /\ WF_vars(CopierTakes) /\ WF_vars(CopierSeesEOF) /\ WF_vars(StdoutCopierWrites) /\ WF_vars(StdoutCopierDone)
         /\ WF_vars(StdoutCopierGivesUp) /\ WF_vars(StdinCopierGivesUp)
         /\ WF_vars(ClosePipes) /\ WF_vars(ProcDone)
         /\ WF_vars(Read) /\ WF_vars(Lookup) /\ WF_vars(CbStep) /\ WF_vars(Fail) /\ WF_vars(CloseSendByReader) /\ WF_vars(ReaderDone)
@@ -447,7 +456,7 @@ EventuallyNotRunning == <>[](terminated)
 SendersFinish == <>SendersDone
 NoStuckCallback == [](\A n \in Names : (n \in pending) => <>(n \notin pending))
 
-ViewNoHist == <<copier, inbuf, outbuf, outEOF, pc, idx, res, lock, pending, closedSend, err, terminated, done, wif, stdinR, wof, rpartial, outClosed,
+ViewNoHist == <<gone, copier, inbuf, outbuf, outEOF, pc, idx, res, lock, pending, closedSend, err, terminated, done, wif, stdinR, wof, rpartial, outClosed,
                 rpc, rmsg, rerr, seen, cpc, cop, cret, cops, inbox, aborted, exitFail, readPh, pipesClosed, pdone,
                 kpc, wpc, wres, regs, cbs>>
 =============================================================================
